@@ -235,16 +235,16 @@ example : BlindSel.blindSelection (fun b (t f : Nat) => if b then t else f) 0 (5
     (fun j => if j = 0 then some 100 else if j = 2 then some 102 else if j = 5 then some 105 else none) = 105 := by decide
 
 /-- **GLWEBlindRetriever (one-shot), instances.**  On the identity table `[0, …, size-1]` the binary-counter
-retrieval returns `idx` for every size 2..17 and every index in range, with the index field at offset 0 and 2
+retrieval returns `idx` for every size 1..17 and every index in range, with the index field at offset 0 and 2
 (the model is polymorphic in the element type, so the routing does not depend on the table's contents).
-`size = 1` allocates no accumulator and `add_core` panics (`split_at_mut(1)` of an empty slice) — recorded finding. -/
+`size = 1` (one accumulator since repair 23) returns the element. -/
 theorem retrieve_instances :
-    ((List.range' 2 16).all fun size => (List.range size).all fun idx => [0, 2].all fun off =>
+    ((List.range' 1 17).all fun size => (List.range size).all fun idx => [0, 2].all fun off =>
       match BlindSel.retrieve (fun b (res a : Nat) => if b then a else res) 0 0 size (idx <<< off) off (List.range size) with
       | .ok w => w == idx
       | _ => false) = true ∧
     (match BlindSel.retrieve (fun b (res a : Nat) => if b then a else res) 0 0 1 0 0 [7] with
-     | .panic _ => true
+     | .ok w => w == 7
      | _ => false) = true := by decide
 
 /- FULL STATEMENT (not proved) for the one-shot form: for every `2 ≤ size`, `data.length ≤ 2^bit_size`, `idx` field
